@@ -71,5 +71,7 @@ fn generate_book_data() -> Result<(), BuildError> {
 }
 
 fn main() {
+    println!("cargo::rustc-check-cfg=cfg(weechess_verif)");
+    println!("cargo::rustc-check-cfg=cfg(weechess_verif_loom)");
     generate_book_data().unwrap();
 }
